@@ -1,4 +1,35 @@
-(** C16 — property theorems (statements + [exact] + [Print Assumptions] only). *)
+(** C16 — property theorems (statements + [exact] + [Print Assumptions] only). A torn final write followed by a new log. *)
+From Coq Require Import List NArith.
 From RainVerif Require Import Params.
-From RainVerif.model Require Import Bytes Key Log LogScript.
+From RainVerif.model Require Import Bytes Key Block Crc Log LogScript Version Lsm DbSpec Codec WalModel.
+From RainVerif.proofs Require Import KeyProofs LogProofs CodecProofs WalProofs.
+Import ListNotations.
 Open Scope N_scope.
+
+Theorem C16a_wal_torn_then_new_log :
+  forall (s1 : list (list batch)) (n : N) (bs2 : list batch) (m : list kv),
+    Forall batches_ok s1 -> batches_ok bs2 ->
+    let file1 := takeN n (wal_bytes_sessions s1) in
+    let file2 := wal_bytes bs2 in
+    let st := log_script_run (wal_script s1) in
+    exists k,
+      wal_recover file1 = Some (firstn k (concat s1)) /\
+      wal_recover file2 = Some bs2 /\
+      (forall j r e, nth_error (snd st) j = Some (r, e) -> (e <= n <-> (j < k)%nat)) /\
+      (forall r1 r2, wal_recover file1 = Some r1 -> wal_recover file2 = Some r2 ->
+         replay (replay m r1) r2 = replay m (firstn k (concat s1) ++ bs2)).
+Proof. exact wal_torn_then_new_log. Qed.
+Print Assumptions C16a_wal_torn_then_new_log.
+
+Theorem C16_append_after_torn_tail_refuted :
+  exists (recs new : list bytes) (n : N),
+    let file := write_sessions 32 7 crc32c [] [recs] in
+    let torn := takeN n file in
+    let file' := torn ++ fst (append_all 32 7 crc32c (blen torn mod 32) new) in
+    n < blen file /\ new <> [] /\
+    read_all 32 7 crc32c true (write_sessions 32 7 crc32c [] [new]) = (new, false) /\
+    forall r, In r new -> ~ In r (fst (read_all 32 7 crc32c true file')).
+Proof. exact append_after_torn_tail_refuted. Qed.
+Print Assumptions C16_append_after_torn_tail_refuted.
+
+(** * C15: a single changed byte *)
